@@ -11,8 +11,9 @@ too-short list is the outcome `.raised .indexError`, never a default.  Third-par
 parameters: `toInt` (Python's `int(str)`; a concrete ASCII transcription `pyInt` is given),
 zlib (de)compression and UTF-8 decoding (functions that succeed or fail).
 
-Import-free, executable.  The model says what the code DOES today (including the `IndexError`
-that escapes `_parseInventoryLine` when the priority is the last column).
+Import-free, executable.  The model says what the code DOES today (after /repo commit f721ca9,
+which turned the `IndexError` on a priority-last line into a `ValueError`; the pre-fix parser is
+kept as `parsePartsOld`).
 -/
 namespace Inventory
 
@@ -133,18 +134,41 @@ def parseParts (toInt : Str → Option Int) (parts : List Str) : Outcome Entry :
     match getIdx parts (i - 1) with                     -- typ = parts[prio_idx - 1]
     | .raised e => .raised e
     | .ok typ =>
-      match getIdx parts (i + 1) with                   -- location = parts[prio_idx + 1]
-      | .raised e => .raised e
-      | .ok location =>
-        let display := pyJoin (parts.drop (i + 2))      -- ' '.join(parts[prio_idx + 2 :])
-        if display = [] then .raised .valueError        -- "Display name column cannot be empty"
-        else .ok ⟨name, typ, prio, location, display⟩
+      if i + 1 ≥ parts.length then .raised .valueError  -- "Location column is missing" (fix f721ca9)
+      else
+        match getIdx parts (i + 1) with                 -- location = parts[prio_idx + 1]
+        | .raised e => .raised e
+        | .ok location =>
+          let display := pyJoin (parts.drop (i + 2))    -- ' '.join(parts[prio_idx + 2 :])
+          if display = [] then .raised .valueError      -- "Display name column cannot be empty"
+          else .ok ⟨name, typ, prio, location, display⟩
 
 def parseLine (toInt : Str → Option Int) (line : Str) : Outcome Entry :=
   parseParts toInt (pySplit line)
 
-/-- the priority column is the last column (decidable description of the inputs on which
-`parts[prio_idx + 1]` raises) -/
+/-- PRE-FIX code (before /repo commit f721ca9), kept only for the historical `old_…` theorems:
+`location = parts[prio_idx + 1]` was indexed without a length test. -/
+def parsePartsOld (toInt : Str → Option Int) (parts : List Str) : Outcome Entry :=
+  match scanPrio toInt (parts.drop 2) 2 with
+  | .raised e => .raised e
+  | .ok (i, prio) =>
+    let name := pyJoin (parts.take (i - 1))
+    match getIdx parts (i - 1) with
+    | .raised e => .raised e
+    | .ok typ =>
+      match getIdx parts (i + 1) with
+      | .raised e => .raised e
+      | .ok location =>
+        let display := pyJoin (parts.drop (i + 2))
+        if display = [] then .raised .valueError
+        else .ok ⟨name, typ, prio, location, display⟩
+
+/-- PRE-FIX `_parseInventoryLine` -/
+def parseLineOld (toInt : Str → Option Int) (line : Str) : Outcome Entry :=
+  parsePartsOld toInt (pySplit line)
+
+/-- the priority column is the last column (decidable description of the inputs on which the
+pre-fix `parts[prio_idx + 1]` raised `IndexError`; now rejected with `ValueError`) -/
 def prioIsLast (toInt : Str → Option Int) (parts : List Str) : Bool :=
   match scanPrio toInt (parts.drop 2) 2 with
   | .ok (i, _) => parts.length == i + 1
@@ -180,8 +204,8 @@ inductive LogMsg
 def pyPrefix : Str := ['p', 'y', ':']
 
 /-- the `for line in payload.splitlines()` loop of `_parseInventory`: `ValueError` is caught,
-logged and the line skipped; any other exception propagates (messages logged so far stay
-logged).  `d` is `result`. -/
+logged and the line skipped; any other exception would propagate (messages logged so far stay
+logged; `PdProps.C17.parse_total` shows the line parser raises nothing else).  `d` is `result`. -/
 def parseLines (toInt : Str → Option Int) (base : Str) :
     List Str → Dict → List LogMsg → List LogMsg × Outcome Dict
   | [], d, log => (log, .ok d)
